@@ -21,6 +21,7 @@ import (
 	"context"
 	"errors"
 	"fmt"
+	"strings"
 	"time"
 
 	blocks "github.com/ipfs/go-block-format"
@@ -200,12 +201,28 @@ func (w *world) replayAll(behs []behaviour) {
 		if b.Source != "simulate" {
 			ts = types
 		}
+		// two overlapping Fetch calls of DIFFERENT identifier types whose identifier bytes coincide: a
+		// sample (r,c) and the legacy range [r,c) of one height are both (height, r, c) in 12 bytes, only
+		// their CIDs differ.  Both assignments to the history's a / b.
+		cross := strings.HasPrefix(b.Source, "scen_cross")
+		if cross {
+			ts = []string{"sample+range", "range+sample"}
+		}
 		for _, typ := range ts {
 			width := 2
-			all := allIDs(width)[typ]
-			perm := w.rnd.Perm(len(all))
-			bind := &binding{sqS: w.S[width], sqT: w.T[width], height: w.nextHeight(),
-				ids: map[string]idSpec{"a": all[perm[0]], "b": all[perm[1]]}}
+			var ids map[string]idSpec
+			if cross {
+				smp, rng := idSpec{Typ: "sample", Row: 1, Col: 3}, idSpec{Typ: "range", From: 1, To: 3}
+				ids = map[string]idSpec{"a": smp, "b": rng}
+				if typ == "range+sample" {
+					ids = map[string]idSpec{"a": rng, "b": smp}
+				}
+			} else {
+				all := allIDs(width)[typ]
+				perm := w.rnd.Perm(len(all))
+				ids = map[string]idSpec{"a": all[perm[0]], "b": all[perm[1]]}
+			}
+			bind := &binding{sqS: w.S[width], sqT: w.T[width], height: w.nextHeight(), ids: ids}
 			var ok bool
 			pan, pv := vh.Recover(func() { ok = w.replay(b, bind, typ) })
 			if pan {
@@ -349,7 +366,10 @@ func (w *world) replay(b behaviour, bind *binding, typ string) bool {
 			}
 			if !inv.queued {
 				spawn()
-				ev, res, err := r.waitArrivalOrResult(inv, cidMatch(inv.m.Cid))
+				// (every other invocation's arrival was consumed when it arrived, so any arrival now is
+				// this one's -- possibly at the UnmarshalFn of a request for ANOTHER CID)
+				_ = cidMatch
+				ev, res, err := r.waitArrivalOrResult(inv, func(e event) bool { return e.kind == "unmarshal" })
 				switch {
 				case err != nil:
 					return drift(i, "%v", err)
@@ -391,6 +411,24 @@ func (w *world) replay(b behaviour, bind *binding, typ string) bool {
 					r.release("unmarshal", inv.owner, inv.idx)
 					res := <-inv.resCh
 					inv.res, inv.arrived = &res, false
+					if res.pan != "" {
+						rep.Violate("C10/hasher/panic", res.pan, ctxInfo(i))
+						violated = true
+						return false
+					}
+					// oracle: the honest block of an identifier some Fetch has registered, still waits for and
+					// has not been given yet must pass
+					if res.err != nil && honest(inv.m) {
+						for f, fs := range r.fetches {
+							k := indexOf(fs.names, inv.m.Cid)
+							if k >= 0 && waiting[f] && !fs.done && isEmpty(fs.reals[k]) {
+								rep.Violate(sigRejectedPending, fmt.Sprintf("%s %v: Fetch %s has registered the request and is still waiting; the honest block was run through the UnmarshalFn registered by Fetch %s for %v and refused: %v",
+									typ, bind.ids[inv.m.Cid], f, inv.owner, bind.ids[r.fetches[inv.owner].names[inv.idx]], res.err), ctxInfo(i))
+								violated = true
+								return false
+							}
+						}
+					}
 				}
 				break
 			}
